@@ -17,6 +17,8 @@ class Trig (α : Type) where
   acos : α → α
   atan2 : α → α → α
   sqrt : α → α
+  /-- `math.hypot` -/
+  hypot : α → α → α
   pi : α
   /-- `math.floor` -/
   floor : α → Int
